@@ -31,6 +31,7 @@ type namedTerm struct {
 }
 
 type Session struct {
+	fnCells map[string]Val // function values stored in local cells (by cell reference)
 	topFrame *Frame // frame of the function under proof
 	runMode string // contract mode in which the function under proof is being verified
 	topContract *Contract // contract of the function under proof
